@@ -16,7 +16,7 @@ def run(ctx):
     drv = ctx.build("c01")
     # MC + R plan in one exhaustive run: laws on the model and one CASE line per enumerated string
     cfg = ctx.pick("codec/MCRLP", "codec/MCRLPThorough")
-    res = ctx.model_check("codec/MCRLP", cfg, tags=("CASE", "VIEWS"), timeout=ctx.pick(400, 2400), name="MCRLP",
+    res = ctx.model_check("codec/MCRLP", cfg, tags=("CASE", "VIEWS"), timeout=ctx.pick(1800, 7200), name="MCRLP",
                           workers=ctx.pick(4, 8))
     views = res.lines.get("VIEWS", [])
     cases = res.lines.get("CASE", [])
@@ -24,14 +24,14 @@ def run(ctx):
         raise InfraError("MCRLP printed %d VIEWS / %d CASE lines" % (len(views), len(cases)))
     cp = os.path.join(ctx.scratch, "cases.json")
     write_json(cp, {"views": views[0], "cases": cases})
-    ctx.drive(drv, ["-mode", "cases", "-in", cp], name="c01-cases", timeout=1200)
+    ctx.drive(drv, ["-mode", "cases", "-in", cp], name="c01-cases", timeout=3600)
     # MC: encode/decode round trip over all bounded item trees
-    ctx.model_check("codec/MCRLPItems", ctx.pick("codec/MCRLPItems", "codec/MCRLPItemsThorough"), timeout=ctx.pick(300, 1500),
+    ctx.model_check("codec/MCRLPItems", ctx.pick("codec/MCRLPItems", "codec/MCRLPItemsThorough"), timeout=ctx.pick(1800, 7200),
                     name="MCRLPItems", workers=ctx.pick(4, 8))
     # V: recorded calls on random values and mutated encodings
     tp = os.path.join(ctx.scratch, "trace.ndjson")
-    s, _ = ctx.drive(drv, ["-mode", "record", "-trace", tp, "-n", ctx.pick(150, 6000)], name="c01-record")
-    ok, consumed, total, r = ctx.validate("codec/RLPTrace", tp, ntraces=s["evaluations"], timeout=ctx.pick(400, 2400))
+    s, _ = ctx.drive(drv, ["-mode", "record", "-trace", tp, "-n", ctx.pick(150, 6000)], name="c01-record", timeout=3600)
+    ok, consumed, total, r = ctx.validate("codec/RLPTrace", tp, ntraces=s["evaluations"], timeout=ctx.pick(1800, 7200))
     if not ok:
         ctx.reject_trace("codec/RLPTrace", tp, consumed, r)
     return ctx.finish(rule="MC/R: all strings over the 19-byte boundary alphabet up to length %s (+fill blocks); V: random typed values, encodings, mutations" % ctx.pick("3", "4"),
